@@ -209,6 +209,7 @@ func runC08(p *Prog, r *Result) {
 	r.Rule("R08a", "every Parser/Printer field is reset, configuration, entry-set, scratch, or written before read (exception table, mechanically checked where possible)", 60)
 	r.Rule("R08b", "reset() dominates every other receiver write in the entry points; other exported methods reach the lexer only through them", 10)
 	r.Rule("R08c", "sibling agreement Parse / StmtsSeq: same sequence reset, rune, next, statements, doHeredocs under err == nil", 2)
+	r.Rule("R08e", "every newLit() is followed on every path by endLit(), a discard or an error report, so Incomplete() cannot stay true after a completed statement (shared with C10 R10c)", 15)
 	r.Rule("R08d", "every increment of openNodes/openBquotes/openBquoteDbls is followed by its decrement on every path to the exit", 4)
 
 	parser, printer := resetSpecs()
@@ -217,6 +218,18 @@ func runC08(p *Prog, r *Result) {
 
 	checkSiblingEntries(p, r, pkg)
 	checkCounters(p, r, pkg)
+	// R08e: the literal buffer, the other input of Incomplete(), is closed on every path (shared with C10 R10c)
+	{
+		sub := newResult(r.Prop, r.prog)
+		runC10(p, sub)
+		for _, o := range sub.Obls {
+			if o.Rule == "R10c" {
+				o.Rule = "R08e"
+				r.Obls = append(r.Obls, o)
+			}
+		}
+		r.Fatal = append(r.Fatal, sub.Fatal...)
+	}
 }
 
 // resetSpecs returns the reset classification tables of Parser and Printer.
